@@ -35,6 +35,14 @@ ALLOWED_AXIOMS = {
     "Eqdep.Eq_rect_eq.eq_rect_eq",
     "ProofIrrelevance.proof_irrelevance",
     "JMeq.JMeq_eq",
+    # binary64 specification axioms of Coq.Floats.FloatAxioms (the kernel's primitive comparison / negation / abs
+    # are SFeqb / SFltb / SFleb / SFopp / SFabs / SF64mul on Prim2SF): used by coq/Common/Float64Order.v
+    "FloatAxioms.eqb_spec",
+    "FloatAxioms.ltb_spec",
+    "FloatAxioms.leb_spec",
+    "FloatAxioms.opp_spec",
+    "FloatAxioms.abs_spec",
+    "FloatAxioms.mul_spec",
 }
 FORBIDDEN = re.compile(
     r"\b(Admitted|admit|Axiom|Axioms|Parameter|Parameters|Conjecture|Conjectures|"
@@ -312,11 +320,9 @@ def collect_assumptions(prop, names, rundir):
         if "Closed under the global context" in txt:
             res[n] = []
         else:
-            axs = []
-            for ln in txt.splitlines():
-                m = re.match(r"^([A-Za-z_][A-Za-z0-9_.']*)\s+:(\s|$)", ln)
-                if m:
-                    axs.append(m.group(1))
+            # `name : type` on one line, or (long types, e.g. FloatAxioms.leb_spec) the name alone followed by an
+            # indented `: type` line
+            axs = [m.group(1) for m in re.finditer(r"^([A-Za-z_][A-Za-z0-9_.']*)(?:[ \t]+|[ \t]*\n[ \t]+):(?=\s|$)", txt, flags=re.M)]
             res[n] = axs if axs else ["UNPARSED:" + txt[:200]]
     return res, out
 
